@@ -314,4 +314,75 @@ example :
     ((extend a (fun _ _ _ => 0) ⟨none, [], false, false, [201]⟩ [⟨0, [12, 1], [13, 2], 5⟩]).held.map fun r => (r.re, r.pr)) =
       [([12, 1], [13, 2]), ([12], [11]), ([13], [10])] := by decide
 
+/-! ### one entry per species -/
+
+theorem unionSet_nodup (s xs : List Nat) (h : s.Nodup) : (unionSet s xs).Nodup := by
+  unfold unionSet
+  induction xs generalizing s with
+  | nil => simpa using h
+  | cons a xs ih =>
+    simp only [List.foldl_cons]
+    apply ih
+    by_cases ha : a ∈ s
+    · simpa [ha] using h
+    · simp only [ha, if_false]
+      exact List.nodup_append.mpr ⟨h, by simp, by
+        intro x hx y hy
+        simp at hy; subst hy
+        intro e; subst e; exact ha hx⟩
+
+theorem foldl_union_nodup (f : Reac → List Nat) (rs : List Reac) (init : List Nat) (h : init.Nodup) :
+    (rs.foldl (fun acc r => unionSet acc (f r)) init).Nodup := by
+  induction rs generalizing init with
+  | nil => simpa using h
+  | cons r rs ih => simp only [List.foldl_cons]; exact ih _ (unionSet_nodup init (f r) h)
+
+/-- the cached reactant / product lists hold every species once -/
+def CacheNodup (s : State) : Prop := s.reactants.Nodup ∧ s.products.Nodup
+
+theorem add_cacheNodup (s : State) (r : Reac) (h : CacheNodup s) : CacheNodup (add s r) := by
+  unfold add
+  split
+  · exact ⟨unionSet_nodup _ _ h.1, unionSet_nodup _ _ h.2⟩
+  · exact h
+
+theorem foldl_add_cacheNodup (rs : List Reac) (s : State) (h : CacheNodup s) : CacheNodup (rs.foldl add s) := by
+  induction rs generalizing s with
+  | nil => exact h
+  | cons r rs ih => exact ih _ (add_cacheNodup s r h)
+
+theorem recompute_cacheNodup (s : State) : CacheNodup (recompute s) :=
+  ⟨foldl_union_nodup _ _ [] (by simp), foldl_union_nodup _ _ [] (by simp)⟩
+
+theorem step_cacheNodup (s : State) (op : Op) (h : CacheNodup s) : CacheNodup (step s op) := by
+  cases op with
+  | add r => exact add_cacheNodup s r h
+  | addMany rs => exact foldl_add_cacheNodup rs s h
+  | removeIdx i => exact recompute_cacheNodup _
+  | removeAt i =>
+    simp only [step]
+    cases pyIndex s.held.length i with
+    | none => exact h
+    | some k => exact recompute_cacheNodup _
+  | removeIdxs is => exact recompute_cacheNodup _
+  | removeInst k => exact recompute_cacheNodup _
+  | removeInsts ks => exact recompute_cacheNodup _
+  | setAllowed l => exact foldl_add_cacheNodup _ _ ⟨by simp, by simp⟩
+  | setRequired l => exact h
+
+theorem run_cacheNodup (ops : List Op) (s : State) (h : CacheNodup s) : CacheNodup (run s ops) := by
+  unfold run
+  induction ops generalizing s with
+  | nil => exact h
+  | cons op ops ih => exact ih _ (step_cacheNodup s op h)
+
+/-- **C14 / C09 (one entry per species).** Whatever the history - and whatever the list of required species repeats or shares with
+    the reacting species - the species list of the network names every species exactly once. -/
+theorem speciesSet_nodup (ops : List Op) : (speciesSet (run {} ops)).Nodup := by
+  have h := run_cacheNodup ops {} ⟨by simp, by simp⟩
+  unfold speciesSet
+  exact unionSet_nodup _ _ (unionSet_nodup _ _ h.1)
+
+example : speciesSet (run {} [.add ⟨0, [1, 2], [3], 0⟩, .setRequired [2, 7, 7, 1]]) = [1, 2, 3, 7] := by decide
+
 end Naunet.C14
